@@ -6,6 +6,7 @@ import Tw.Model.OnlineNet
 import Tw.Proofs.ConnProgress
 import Tw.Proofs.ConnTimed6
 import Tw.Proofs.ConnTimed7
+import Tw.Proofs.ConnOpen6
 
 /-!
 # C02 — the connection makes progress: every call returns, the deadline is finite
@@ -321,6 +322,34 @@ example : (((NetSim.run (World.init proto7) busy7).bind (timedRounds () 4)).map 
 example : (((NetSim.run (World.init (proto6 false)) (busy6 false)).bind fun w =>
     fairRoundsT (P := proto6 false) [] P6.Alt.exact 4 (FairState.start w)).map fun s => s.w.settled) = some true := by
   decide +kernel
+
+/-! #### handshake + online phase, from any reachable world (0.6) -/
+
+/-- **an online connector has been told `Ready`** (0.6): in every reachable world a side that sent a
+`Connect` and is `Online` has `Ready` among its events (by C01 exactly once) -/
+theorem C02_ready_of_connector6 (tl : Bool) (sched : List (Move (proto6 tl))) (w : World (proto6 tl))
+    (hrun : NetSim.run (World.init (proto6 tl)) sched = some w) (s : Side) {t : Option Nat} {o : Tw.Conn.Online}
+    (h1 : (w.get s).conn.state = .online t o) (h2 : P6.hasConnect (w.get s)) :
+    Tw.Conn.Event.ready ∈ (w.get s).events :=
+  P6.ready_of_connector6 tl sched w hrun s h1 h2
+
+/-- **0.6, handshake and online phase composed**: from every world reachable by an admissible schedule
+in which `a` has called `connect`, `b` has not (see `C02_simultaneous_open6_witness` for why the
+roles are needed) and nobody is disconnected, at most **five** rounds of the fair suffix (`b` can draw
+a token from `draws`) end with `a` online and told `Ready`, everything handed over and acknowledged on
+both sides (`quiescentH`: `b` may still be `Pending` if `a` never sent a chunk), all queues empty.
+No "both sides online" hypothesis.  `_partial` because of `hx` — "the acceptor is not online while the
+connector is still connecting" — which no reachable world violates (invariant in progress). -/
+theorem C02_open_progress6_partial (tl : Bool) (draws : List Nat) (alt : (proto6 tl).Alt) (nt : Nat)
+    (hnt : Tw.Conn6.tokenRandom draws = some nt) (sched : List (Move (proto6 tl))) (w : World (proto6 tl))
+    (hadm : admissible (World.init (proto6 tl)) sched = true)
+    (hrun : NetSim.run (World.init (proto6 tl)) sched = some w)
+    (ha : P6.hasConnect w.a) (hb : ¬ P6.hasConnect w.b)
+    (hda : w.a.conn.state ≠ .disconnected) (hdb : w.b.conn.state ≠ .disconnected)
+    (hx : w.a.conn.state = .connecting → ∀ t o, w.b.conn.state ≠ .online t o) :
+    ∃ k, k ≤ 5 ∧ ∃ s', fairRoundsT draws alt k (FairState.start w) = some s' ∧ s'.w.quiescentH ∧
+      (∃ t o s, s'.w.a.conn = ⟨.online t o, s⟩) ∧ Tw.Conn.Event.ready ∈ s'.w.a.events :=
+  P6.open_progress6_x tl draws alt nt hnt sched w hadm hrun ha hb hda hdb hx
 
 end Timed
 
